@@ -16,6 +16,8 @@ class Case:
     __slots__ = ('conf', 'pats', 'msg', 'sub', 'name', 'dry', 'tz', 'impl', 'path', 'ast', 'model', 'spec', 'note')
 
     def __init__(self, conf, pats, msg, sub='new', name='1.host', dry='0', tz=None):
+        if '/' not in sub:
+            sub = 'md/' + sub
         self.conf, self.pats, self.msg, self.sub, self.name, self.dry, self.tz = conf, pats, msg, sub, name, dry, tz
         self.impl = self.path = self.ast = self.model = self.spec = self.note = None
 
